@@ -169,8 +169,8 @@ ROUGH_TLV = KaniUnit(
     crate="rough_tlv",
     attachments=[("rough_tlv/src/decoder.rs", os.path.join(KC, "rough_tlv_decoder.rs"), "decoder"),
                  ("rough_tlv/src/encoder.rs", os.path.join(KC, "rough_tlv_encoder.rs"), "encoder")],
-    params={"quick": {"L": 20, "U": 6, "LW": 88, "UW": 24, "K": 2, "KR": 1, "VL": 1, "U11": 8, "NE": 18, "UE": 40},
-            "thorough": {"L": 24, "U": 7, "LW": 136, "UW": 36, "K": 3, "KR": 2, "VL": 2, "U11": 12, "NE": 34, "UE": 72}},
+    params={"quick": {"L": 20, "U": 6, "LW": 88, "UW": 24, "K": 2, "KR": 1, "VL": 1, "U11": 8, "NE": 10, "UE": 24},
+            "thorough": {"L": 24, "U": 7, "LW": 136, "UW": 36, "K": 3, "KR": 2, "VL": 2, "U11": 12, "NE": 19, "UE": 42}},
     harnesses=_C11 + [
         Harness("c12_new_accepts_exactly", ["C12"], "MessageView::new",
                 "never panics; Ok <=> >= 4 bytes /\\ 8N <= len /\\ offsets non-decreasing /\\ tags non-decreasing "
@@ -179,10 +179,10 @@ ROUGH_TLV = KaniUnit(
                 "acceptance only, wider window: never panics; Ok <=> the format's acceptance rule, with up to LW/8 pairs in the "
                 "header", kind="bounded", bound="every byte string of length <= {LW} (N up to {LW}/8)", covers=3, timeout=3000,
                 mod="decoder"),
-        Harness("c12_new_accepts_exactly_each_n", ["C12"], "MessageView::new",
-                "acceptance only, pair count by pair count: for each N in 1..={NE}, every header of N pairs (symbolic offsets "
-                "and tags) before a 4-byte payload: never panics; Ok <=> the format's acceptance rule", kind="bounded",
-                bound="each N in 1..={NE}, byte length 8N+4, all header words symbolic", covers=4, timeout=1500, mod="decoder"),
+        Harness("c12_new_accepts_exactly_fixed_n", ["C12"], "MessageView::new",
+                "acceptance only, one pair count: every header of exactly {NE} pairs (symbolic offsets and tags) before a "
+                "4-byte payload: never panics; Ok <=> the format's acceptance rule", kind="bounded",
+                bound="N = {NE}, byte length 8N+4, all header words symbolic", covers=4, timeout=900, mod="decoder"),
         Harness("c12_values_tile", ["C12"], "MessageView::get_value",
                 "on every accepted message, for every i < N: get_value(i) is the sub-slice [8N+start_i, 8N+end_i) "
                 "(pointer identity), start_0 = 0, start_{i+1} = end_i, end_{N-1} = len: the values tile the bytes "
@@ -243,6 +243,44 @@ import units_arena_read
 VERUS_UNITS = {"hcobs": units_hcobs.HCOBS, "vouched_time": units_vouched_time.VOUCHED_TIME_VX,
                "sliding_deque": units_sliding_deque.SLIDING_DEQUE_VX, "chunker": units_chunker.CHUNKER,
                "arena_read": units_arena_read.ARENA_READ}
+
+# ---- Engine C: bounded native cross-checks (stand-ins only) ---------------------------------------------------
+from native_engine import NativeTest, NativeUnit
+KN = os.path.join(VERIF, "kn")
+NATIVE_UNITS = {
+    "rough_tlv": NativeUnit("rough_tlv", "rough_tlv",
+        [("rough_tlv/src/encoder.rs", os.path.join(KN, "rough_tlv_encoder.rs")),
+         ("rough_tlv/src/decoder.rs", os.path.join(KN, "rough_tlv_decoder.rs"))],
+        [NativeTest("verif_native_layout_many_pairs", ["C11"], "MessageWrapper::new",
+                    "same triple as c11_new_layout / c11_new_roundtrip / c11_cow_values / c11_new_from_sorted on long lists: emitted "
+                    "bytes == Roughtime layout with ties in insertion order; emitted length == rough_tlv_len; new_from_sorted rejects "
+                    "exactly decreasing tags; MessageView returns the same pairs in the same order (iteration, indexing, tag lookup)",
+                    "n = 0..={NP} pairs x 7 tag patterns (all ties, 3 classes cycling, descending, sorted, random classes, arbitrary, "
+                    "swapped tie blocks) x 3 value-length patterns (values 0..5 bytes)"),
+         NativeTest("verif_native_layout_random_lists", ["C11"], "MessageWrapper::new",
+                    "as above, on LCG-drawn lists with 1..5 tag classes", "{NR} lists of 0..={NP} pairs, fixed seed"),
+         NativeTest("verif_native_headers_with_many_pairs", ["C12"], "MessageView::new",
+                    "same triple as the c12_* harnesses on headers with many pairs: never panics; Ok <=> the format's acceptance rule; "
+                    "values tile the bytes after the header; indexing, iteration and the tag array agree; indices >= N yield nothing; "
+                    "tag lookup returns a value stored under exactly that tag or nothing",
+                    "N = 0..={NP}: sorted baseline, truncation at every length, every single adjacent inversion of tags and of offsets, "
+                    "last offset at/inside/beyond the payload end, pair counts larger than the buffer and near 2^32"),
+         NativeTest("verif_native_random_headers", ["C12"], "MessageView::new",
+                    "as above on LCG-drawn, mostly-sorted headers with perturbations and truncations",
+                    "{NR} byte strings with N <= {NP}, fixed seed")],
+        params={"quick": {"NP": 72, "NR": 4000}, "thorough": {"NP": 300, "NR": 60000}}),
+    "hcobs": NativeUnit("hcobs", "hcobs",
+        [("hcobs/src/lib.rs", os.path.join(KN, "hcobs_find_stuff.rs"))],
+        [NativeTest("verif_native_find_stuff_sequence_positions", ["C01", "C02", "C07", "C08"], "find_stuff_sequence",
+                    "the contract ASSUMED for find_stuff_sequence by the Verus units (Some(i) <=> i is the first index with FE FD), "
+                    "beyond the lengths the Kani harness c07_find_stuff_sequence_bounded can afford",
+                    "every length 0..={NL} x 6 backgrounds x (no pair / FE FD at every position / lone FE / lone FD at every position / "
+                    "a second pair 2, 8, 16, 64 bytes later)"),
+         NativeTest("verif_native_find_stuff_sequence_windows", ["C01", "C02", "C07", "C08"], "find_stuff_sequence",
+                    "as above, around FE / FD: every 3-byte window over the alphabet 00 FC FD FE FF at every position",
+                    "every length 0..={NW} and 63..66, 127..130, 255..257 x 3 backgrounds x every position x 125 windows")],
+        params={"quick": {"NL": 200, "NW": 40}, "thorough": {"NL": 400, "NW": 96}}),
+}
 
 # property -> description of how it is decided
 PROPERTIES = {
@@ -318,6 +356,7 @@ PROPERTIES["C18"] = {
 PROPERTIES["C08"] = {
     "level": "proof",
     "kani_units": [],
+    "native_units": ["hcobs"],
     "verus_units": ["chunker"],
     "assumptions": [
         "ASSUMED (vx/chunker/assumed.rs): `(&mut slice).chain(&mut reader)` handed to `ByteArena::read_n(.., count, MAX)` returns "
@@ -355,6 +394,7 @@ PROPERTIES["C17"] = {
 
 PROPERTIES["C11"] = {
     "level": "model_checking",
+    "native_units": ["rough_tlv"],
     "kani_units": ["rough_tlv"],
     "verus_units": [],
     "assumptions": [
@@ -364,11 +404,14 @@ PROPERTIES["C11"] = {
         "HCOBS Encoder cannot be loaded into Kani (arena; measured out-of-memory) -- 'all ZeroCopySink targets' is therefore "
         "covered only through the trait interface",
         "slice::sort_by_key runs as real code (stability is checked against a reference insertion sort)",
+        "beyond the Kani bounds: a NATIVE bounded cross-check (Engine C, never counted as proof) runs the same triple on lists of "
+        "up to 72 (quick) / 300 (thorough) pairs -- the standard sorts change algorithm above ~20 elements",
     ],
 }
 
 PROPERTIES["C12"] = {
     "level": "model_checking",
+    "native_units": ["rough_tlv"],
     "kani_units": ["rough_tlv"],
     "verus_units": [],
     "assumptions": [
@@ -376,6 +419,8 @@ PROPERTIES["C12"] = {
         "(unwinding assertions on)",
         "the unsafe slice_as_tags cast runs under CBMC's pointer checks (no assumed contract)",
         "Cow::Borrowed input only (Cow::Owned differs only in who frees the buffer)",
+        "beyond the Kani bounds: a NATIVE bounded cross-check (Engine C, never counted as proof) runs the same triple on headers "
+        "of up to 72 (quick) / 300 (thorough) pairs",
     ],
 }
 
@@ -395,6 +440,7 @@ for _pid in ("C01", "C02", "C07", "C09"):
     PROPERTIES[_pid] = {
         "level": "proof",
         "kani_units": ["hcobs"] if _pid != "C09" else [],
+        "native_units": ["hcobs"] if _pid != "C09" else [],
         "verus_units": ["hcobs"],
         "assumptions": list(_HCOBS_ASSUMED),
     }
@@ -404,5 +450,5 @@ TRUSTED_BASE = [
     "the spec functions enc / dstep / drun in /verif/vx/hcobs (transcriptions of the format)",
     "Kani 0.68 / CBMC 6.11 / CaDiCaL (bit-precise; machine arithmetic not idealised)",
     "rustc (Kani's pinned nightly) MIR semantics",
-    "the harness oracles in /verif/kc/*.rs (transcriptions of the property statements)",
+    "the harness oracles in /verif/kc/*.rs and /verif/kn/*.rs (transcriptions of the property statements)",
 ]
